@@ -3,7 +3,7 @@ package main
 // Site inventories for the execution-frame properties (C03 C07 C08 C14):
 //
 //	gas constants of handle.go,
-//	adds      every non-journaled write call site (Stub.Add / Stub.AddObject in the built-in
+//	adds      every non-journaled write call xfSite (Stub.Add / Stub.AddObject in the built-in
 //	          contracts, Ledger.AddState in the executor),
 //	panics    every `panic(` call and every `go` statement in the files anchored by C08,
 //	recovers  every function that installs a deferred recover(),
@@ -12,8 +12,8 @@ package main
 //	process_entries   exported contract methods from which InterchainManager.ProcessIBTP is
 //	          reachable in the intra-package call graph (CrossInvoke string literals included).
 //
-// A site is identified position-independently: (file, enclosing function, kind, ordinal of the
-// site among the sites of that kind inside the function) plus a hash of the function's source
+// A xfSite is identified position-independently: (file, enclosing function, kind, ordinal of the
+// xfSite among the sites of that kind inside the function) plus a hash of the function's source
 // printed without comments.
 
 import (
@@ -29,28 +29,28 @@ import (
 	"strings"
 )
 
-type site struct {
+type xfSite struct {
 	file, fn, kind string
 	ord            int
-	failAfter      bool // a `return` of an error value follows the site lexically inside the function
+	failAfter      bool // a `return` of an error value follows the xfSite lexically inside the function
 	hash           string
 }
 
-func funcName(fd *ast.FuncDecl) string {
+func xfFuncName(fd *ast.FuncDecl) string {
 	if fd.Recv != nil && len(fd.Recv.List) == 1 {
 		return strings.TrimPrefix(exprString(fd.Recv.List[0].Type), "*") + "." + fd.Name.Name
 	}
 	return fd.Name.Name
 }
 
-func recvIdent(fd *ast.FuncDecl) string {
+func xfRecvIdent(fd *ast.FuncDecl) string {
 	if fd.Recv != nil && len(fd.Recv.List) == 1 && len(fd.Recv.List[0].Names) == 1 {
 		return fd.Recv.List[0].Names[0].Name
 	}
 	return ""
 }
 
-func funcHash(fd *ast.FuncDecl) string {
+func xfFuncHash(fd *ast.FuncDecl) string {
 	cp := *fd
 	cp.Doc = nil
 	var buf bytes.Buffer
@@ -62,9 +62,9 @@ func funcHash(fd *ast.FuncDecl) string {
 	return hex.EncodeToString(h[:6])
 }
 
-// returnsErrorAfter reports whether, lexically after pos inside fd, there is a return statement
+// xfReturnsErrorAfter reports whether, lexically after pos inside fd, there is a return statement
 // that yields a failure: boltvm.Error(...), boltvm.BError, a non-nil `err`, fmt.Errorf(...).
-func returnsErrorAfter(fd *ast.FuncDecl, pos token.Pos) bool {
+func xfReturnsErrorAfter(fd *ast.FuncDecl, pos token.Pos) bool {
 	found := false
 	ast.Inspect(fd.Body, func(n ast.Node) bool {
 		rs, ok := n.(*ast.ReturnStmt)
@@ -89,7 +89,7 @@ func returnsErrorAfter(fd *ast.FuncDecl, pos token.Pos) bool {
 	return found
 }
 
-func writeSites(v *vfile, name string, ss []site) {
+func xfWriteSites(v *vfile, name string, ss []xfSite) {
 	fmt.Fprintf(&v.b, "(* (file, function, kind, ordinal within the function, failure return follows lexically, function hash) *)\n")
 	fmt.Fprintf(&v.b, "Definition %s : list (string * string * string * N * bool * string) :=\n  [", name)
 	for i, s := range ss {
@@ -105,7 +105,7 @@ func writeSites(v *vfile, name string, ss []site) {
 	v.b.WriteString("].\n\n")
 }
 
-func eachFunc(files map[string]*ast.File, f func(file string, fd *ast.FuncDecl)) {
+func xfEachFunc(files map[string]*ast.File, f func(file string, fd *ast.FuncDecl)) {
 	var names []string
 	for n := range files {
 		names = append(names, n)
@@ -120,7 +120,7 @@ func eachFunc(files map[string]*ast.File, f func(file string, fd *ast.FuncDecl))
 	}
 }
 
-func parseNamed(rel ...string) map[string]*ast.File {
+func xfParseNamed(rel ...string) map[string]*ast.File {
 	out := map[string]*ast.File{}
 	for _, r := range rel {
 		out[r] = parseFile(filepath.Join(*repo, r))
@@ -128,7 +128,7 @@ func parseNamed(rel ...string) map[string]*ast.File {
 	return out
 }
 
-func parseDirNamed(rel string) map[string]*ast.File {
+func xfParseDirNamed(rel string) map[string]*ast.File {
 	out := map[string]*ast.File{}
 	dir := filepath.Join(*repo, rel)
 	matches, err := filepath.Glob(filepath.Join(dir, "*.go"))
@@ -163,7 +163,7 @@ func genSites() {
 				if i >= len(vs.Values) || !strings.HasPrefix(n.Name, "Gas") {
 					continue
 				}
-				val, ok := constInt(vs.Values[i])
+				val, ok := xfConstInt(vs.Values[i])
 				if !ok {
 					fatalf("gas constant %s: unsupported expression at %s", n.Name, fset.Position(vs.Values[i].Pos()))
 				}
@@ -181,10 +181,10 @@ func genSites() {
 	v.b.WriteString("\n")
 
 	// ---- non-journaled writes ---------------------------------------------------------
-	contracts := parseDirNamed("internal/executor/contracts")
-	var adds []site
-	eachFunc(contracts, func(file string, fd *ast.FuncDecl) {
-		rv := recvIdent(fd)
+	contracts := xfParseDirNamed("internal/executor/contracts")
+	var adds []xfSite
+	xfEachFunc(contracts, func(file string, fd *ast.FuncDecl) {
+		rv := xfRecvIdent(fd)
 		cnt := map[string]int{}
 		ast.Inspect(fd.Body, func(n ast.Node) bool {
 			call, ok := n.(*ast.CallExpr)
@@ -201,13 +201,13 @@ func genSites() {
 				return true
 			}
 			k := sel.Sel.Name
-			adds = append(adds, site{file: file, fn: funcName(fd), kind: k, ord: cnt[k], failAfter: returnsErrorAfter(fd, call.Pos()), hash: funcHash(fd)})
+			adds = append(adds, xfSite{file: file, fn: xfFuncName(fd), kind: k, ord: cnt[k], failAfter: xfReturnsErrorAfter(fd, call.Pos()), hash: xfFuncHash(fd)})
 			cnt[k]++
 			return true
 		})
 	})
-	execFiles := parseNamed("internal/executor/handle.go", "internal/executor/executor.go", "internal/executor/serial_executor.go")
-	eachFunc(execFiles, func(file string, fd *ast.FuncDecl) {
+	execFiles := xfParseNamed("internal/executor/handle.go", "internal/executor/executor.go", "internal/executor/serial_executor.go")
+	xfEachFunc(execFiles, func(file string, fd *ast.FuncDecl) {
 		cnt := 0
 		ast.Inspect(fd.Body, func(n ast.Node) bool {
 			call, ok := n.(*ast.CallExpr)
@@ -215,22 +215,22 @@ func genSites() {
 				return true
 			}
 			if sel, ok := call.Fun.(*ast.SelectorExpr); ok && sel.Sel.Name == "AddState" {
-				adds = append(adds, site{file: file, fn: funcName(fd), kind: "AddState", ord: cnt, failAfter: returnsErrorAfter(fd, call.Pos()), hash: funcHash(fd)})
+				adds = append(adds, xfSite{file: file, fn: xfFuncName(fd), kind: "AddState", ord: cnt, failAfter: xfReturnsErrorAfter(fd, call.Pos()), hash: xfFuncHash(fd)})
 				cnt++
 			}
 			return true
 		})
 	})
-	writeSites(v, "adds", adds)
+	xfWriteSites(v, "adds", adds)
 
 	// ---- panic( / go sites / recover ----------------------------------------------------
-	anch := parseNamed("internal/executor/handle.go", "internal/executor/executor.go", "internal/executor/serial_executor.go",
+	anch := xfParseNamed("internal/executor/handle.go", "internal/executor/executor.go", "internal/executor/serial_executor.go",
 		"pkg/vm/boltvm/boltvm.go", "pkg/vm/boltvm/bolt_stub.go", "pkg/vm/boltvm/register.go",
 		"pkg/proof/proof_pool.go", "internal/executor/contracts/interchain.go", "internal/executor/contracts/transaction_manager.go",
 		"internal/executor/contracts/governance.go", "pkg/vm/wasm/wasm.go")
-	var panics []site
+	var panics []xfSite
 	var recovers [][2]string
-	eachFunc(anch, func(file string, fd *ast.FuncDecl) {
+	xfEachFunc(anch, func(file string, fd *ast.FuncDecl) {
 		cnt := map[string]int{}
 		hasRecover := false
 		// single-value type assertions (x.(T) panics on mismatch); the comma-ok forms are excluded
@@ -248,13 +248,13 @@ func genSites() {
 			switch x := n.(type) {
 			case *ast.TypeAssertExpr:
 				if x.Type != nil && !okForm[x] && (strings.HasPrefix(file, "internal/executor/") && !strings.Contains(file, "/contracts/") || strings.HasSuffix(file, "boltvm.go")) {
-					panics = append(panics, site{file: file, fn: funcName(fd), kind: "assert", ord: cnt["assert"], hash: funcHash(fd)})
+					panics = append(panics, xfSite{file: file, fn: xfFuncName(fd), kind: "assert", ord: cnt["assert"], hash: xfFuncHash(fd)})
 					cnt["assert"]++
 				}
 			case *ast.CallExpr:
 				if id, ok := x.Fun.(*ast.Ident); ok {
 					if id.Name == "panic" {
-						panics = append(panics, site{file: file, fn: funcName(fd), kind: "panic", ord: cnt["panic"], hash: funcHash(fd)})
+						panics = append(panics, xfSite{file: file, fn: xfFuncName(fd), kind: "panic", ord: cnt["panic"], hash: xfFuncHash(fd)})
 						cnt["panic"]++
 					}
 					if id.Name == "recover" {
@@ -262,13 +262,13 @@ func genSites() {
 					}
 				}
 			case *ast.GoStmt:
-				panics = append(panics, site{file: file, fn: funcName(fd), kind: "go", ord: cnt["go"], hash: funcHash(fd)})
+				panics = append(panics, xfSite{file: file, fn: xfFuncName(fd), kind: "go", ord: cnt["go"], hash: xfFuncHash(fd)})
 				cnt["go"]++
 			}
 			return true
 		})
 		if hasRecover {
-			recovers = append(recovers, [2]string{file, funcName(fd)})
+			recovers = append(recovers, [2]string{file, xfFuncName(fd)})
 		}
 	})
 	// failAfter is meaningless for these; the flag position carries "inside a function with a deferred recover"
@@ -280,7 +280,7 @@ func genSites() {
 		panics[i].failAfter = rec[panics[i].file+"|"+panics[i].fn]
 	}
 	v.b.WriteString("(* for panics the boolean means: the enclosing function itself installs a deferred recover() *)\n")
-	writeSites(v, "panics", panics)
+	xfWriteSites(v, "panics", panics)
 	fmt.Fprintf(&v.b, "Definition recovers : list (string * string) :=\n  [")
 	for i, r := range recovers {
 		if i > 0 {
@@ -316,8 +316,8 @@ func genSites() {
 					fatalf("boltvm.Stub: embedded interface or unnamed method at %s", fset.Position(m.Pos()))
 				}
 				stubMethods = append(stubMethods, m.Names[0].Name)
-				stubSigs[m.Names[0].Name] = paramTypes(ft)
-				stubRets[m.Names[0].Name] = returnsResponse(ft)
+				stubSigs[m.Names[0].Name] = xfParamTypes(ft)
+				stubRets[m.Names[0].Name] = xfReturnsResponse(ft)
 			}
 		}
 	}
@@ -331,7 +331,7 @@ func genSites() {
 		if i > 0 {
 			v.b.WriteString(";\n   ")
 		}
-		fmt.Fprintf(&v.b, "(%s, %s, %s)", gstr(m), glistStr(stubSigs[m]), gbool(stubRets[m]))
+		fmt.Fprintf(&v.b, "(%s, %s, %s)", gstr(m), glistStr(stubSigs[m]), xfBool(stubRets[m]))
 	}
 	v.b.WriteString("].\n\n")
 
@@ -364,8 +364,8 @@ func genSites() {
 		}
 	}
 	allFuncs := map[string]*ast.FuncDecl{} // "Type.Method" or "func"
-	eachFunc(contracts, func(file string, fd *ast.FuncDecl) {
-		allFuncs[funcName(fd)] = fd
+	xfEachFunc(contracts, func(file string, fd *ast.FuncDecl) {
+		allFuncs[xfFuncName(fd)] = fd
 		if fd.Recv != nil {
 			t := strings.TrimPrefix(exprString(fd.Recv.List[0].Type), "*")
 			if ct, ok := ctypes[t]; ok {
@@ -406,14 +406,14 @@ func genSites() {
 		sort.Strings(ms)
 		for _, m := range ms {
 			fd := ctypes[n].own[m]
-			if !ast.IsExported(m) || returnsResponse(fd.Type) {
+			if !ast.IsExported(m) || xfReturnsResponse(fd.Type) {
 				continue
 			}
 			if !first {
 				v.b.WriteString(";\n   ")
 			}
 			first = false
-			fmt.Fprintf(&v.b, "(%s, %s, %s)", gstr(n), gstr(m), glistStr(paramTypes(fd.Type)))
+			fmt.Fprintf(&v.b, "(%s, %s, %s)", gstr(n), gstr(m), glistStr(xfParamTypes(fd.Type)))
 		}
 	}
 	v.b.WriteString("].\n\n")
@@ -428,7 +428,7 @@ func genSites() {
 	}
 	for k, fd := range allFuncs {
 		edges[k] = map[string]bool{}
-		rv := recvIdent(fd)
+		rv := xfRecvIdent(fd)
 		rt := ""
 		if fd.Recv != nil {
 			rt = strings.TrimPrefix(exprString(fd.Recv.List[0].Type), "*")
@@ -507,20 +507,20 @@ func genSites() {
 		}
 		fd := allFuncs[k]
 		j := strings.Index(k, ".")
-		fmt.Fprintf(&v.b, "(%s, %s, %s, %s, %s)", gstr(k[:j]), gstr(k[j+1:]), glistStr(paramTypes(fd.Type)), gbool(returnsResponse(fd.Type)), gbool(hasCallerGuard(fd)))
+		fmt.Fprintf(&v.b, "(%s, %s, %s, %s, %s)", gstr(k[:j]), gstr(k[j+1:]), glistStr(xfParamTypes(fd.Type)), xfBool(xfReturnsResponse(fd.Type)), xfBool(xfHasCallerGuard(fd)))
 	}
 	v.b.WriteString("].\n")
 	v.write()
 }
 
-func gbool(b bool) string {
+func xfBool(b bool) string {
 	if b {
 		return "true"
 	}
 	return "false"
 }
 
-func constInt(x ast.Expr) (int64, bool) {
+func xfConstInt(x ast.Expr) (int64, bool) {
 	switch v := x.(type) {
 	case *ast.BasicLit:
 		if v.Kind != token.INT {
@@ -532,8 +532,8 @@ func constInt(x ast.Expr) (int64, bool) {
 		}
 		return n, true
 	case *ast.BinaryExpr:
-		a, ok1 := constInt(v.X)
-		b, ok2 := constInt(v.Y)
+		a, ok1 := xfConstInt(v.X)
+		b, ok2 := xfConstInt(v.Y)
 		if !ok1 || !ok2 {
 			return 0, false
 		}
@@ -544,12 +544,12 @@ func constInt(x ast.Expr) (int64, bool) {
 			return a + b, true
 		}
 	case *ast.ParenExpr:
-		return constInt(v.X)
+		return xfConstInt(v.X)
 	}
 	return 0, false
 }
 
-func paramTypes(ft *ast.FuncType) []string {
+func xfParamTypes(ft *ast.FuncType) []string {
 	var out []string
 	if ft.Params == nil {
 		return out
@@ -566,7 +566,7 @@ func paramTypes(ft *ast.FuncType) []string {
 	return out
 }
 
-func returnsResponse(ft *ast.FuncType) bool {
+func xfReturnsResponse(ft *ast.FuncType) bool {
 	if ft.Results == nil || len(ft.Results.List) != 1 || len(ft.Results.List[0].Names) > 1 {
 		return false
 	}
@@ -574,9 +574,9 @@ func returnsResponse(ft *ast.FuncType) bool {
 	return s == "*boltvm.Response" || s == "*Response"
 }
 
-// hasCallerGuard: some statement before the first state access calls CurrentCaller()/Caller()
+// xfHasCallerGuard: some statement before the first state access calls CurrentCaller()/Caller()
 // or a checkPermission helper (syntactic; used only to tell guarded from unguarded entry points)
-func hasCallerGuard(fd *ast.FuncDecl) bool {
+func xfHasCallerGuard(fd *ast.FuncDecl) bool {
 	g := false
 	ast.Inspect(fd.Body, func(n ast.Node) bool {
 		if call, ok := n.(*ast.CallExpr); ok {
